@@ -190,8 +190,8 @@ var routeNames = []string{"constructors", "template+fill", "sml-print-parse", "d
 
 func init() {
 	h.Register(&h.Check{
-		ID:   "C01",
-		Rule: "complete product of stream x function x wait bit, all session ids, the system-byte lane alphabet, every item tree of the scope, the size-boundary axis for all 14 formats (top-level and nested), each through 4 construction routes; each message is encoded, decoded by the real decoder, compared field by field and re-encoded, and the decoder's output is fed back once more; non-trivial = a non-empty encoding was decoded and compared",
+		ID:          "C01",
+		Rule:        "complete product of stream x function x wait bit, all session ids, the system-byte lane alphabet, every item tree of the scope, the size-boundary axis for all 14 formats (top-level and nested), each through 4 construction routes; each message is encoded, decoded by the real decoder, compared field by field and re-encoded, and the decoder's output is fed back once more; non-trivial = a non-empty encoding was decoded and compared",
 		MemLimitGiB: 12,
 		WatchdogSec: 3600, // items of 16,777,215 elements legitimately take minutes; these checks have no hang oracle
 		Build: func(tier string, seed int64) []h.Space {
@@ -306,7 +306,10 @@ func init() {
 				}
 			}
 			sp = append(sp, h.Space{Name: "size-boundaries", Count: uint64(len(sizes)), ChunkHint: 1,
-				Describe: func(i uint64) interface{} { s := sizes[i]; return fmt.Sprintf("%s with %d elements nested=%v", s.k, s.n, s.nested) },
+				Describe: func(i uint64) interface{} {
+					s := sizes[i]
+					return fmt.Sprintf("%s with %d elements nested=%v", s.k, s.n, s.nested)
+				},
 				Run: func(c *h.Ctx, i uint64) {
 					s := sizes[i]
 					n := bigNode(s.k, s.n)
